@@ -257,14 +257,21 @@ func (s *scanner) consumeIfComment(ch rune) bool {
 }
 
 func (s *scanner) skipToEndOfComment() {
+	startPos := s.pos
+	prev := eof
 	for {
-		if ch := s.read(); ch == '*' {
-			for {
-				if ch := s.read(); ch == '/' {
-					return
-				}
+		ch := s.read()
+		if ch == eof && s.atEOF {
+			// End of the input reached inside the comment
+			if s.err == nil {
+				s.err = &ParseError{Err: "unterminated comment", Pos: startPos}
 			}
+			return
 		}
+		if prev == '*' && ch == '/' {
+			return
+		}
+		prev = ch
 	}
 }
 
